@@ -867,33 +867,33 @@ func Environ() []string {
 	return out
 }
 
-func Clearenv()                        { ResetEnv() }
-func ExpandEnv(s string) string        { return os.Expand(s, Getenv) }
+func Clearenv()                                     { ResetEnv() }
+func ExpandEnv(s string) string                     { return os.Expand(s, Getenv) }
 func Expand(s string, m func(string) string) string { return os.Expand(s, m) }
 
 // ---------------------------------------------------------------- pass-through
 
-func Getwd() (string, error)          { return os.Getwd() }
-func Chdir(dir string) error          { return os.Chdir(dir) }
-func Getpid() int                     { return os.Getpid() }
-func Getppid() int                    { return os.Getppid() }
-func Getuid() int                     { return os.Getuid() }
-func Getgid() int                     { return os.Getgid() }
-func Hostname() (string, error)       { return "simhost", nil }
-func Exit(code int)                   { os.Exit(code) }
-func Executable() (string, error)     { return os.Executable() }
-func UserHomeDir() (string, error)    { return os.UserHomeDir() }
-func UserCacheDir() (string, error)   { return os.UserCacheDir() }
-func UserConfigDir() (string, error)  { return os.UserConfigDir() }
-func IsExist(err error) bool          { return os.IsExist(err) }
-func IsNotExist(err error) bool       { return os.IsNotExist(err) }
-func IsPermission(err error) bool     { return os.IsPermission(err) }
-func IsTimeout(err error) bool        { return os.IsTimeout(err) }
-func IsPathSeparator(c uint8) bool    { return os.IsPathSeparator(c) }
-func DirFS(dir string) fs.FS          { return os.DirFS(dir) }
-func SameFile(a, b FileInfo) bool     { return os.SameFile(a, b) }
+func Getwd() (string, error)                  { return os.Getwd() }
+func Chdir(dir string) error                  { return os.Chdir(dir) }
+func Getpid() int                             { return os.Getpid() }
+func Getppid() int                            { return os.Getppid() }
+func Getuid() int                             { return os.Getuid() }
+func Getgid() int                             { return os.Getgid() }
+func Hostname() (string, error)               { return "simhost", nil }
+func Exit(code int)                           { os.Exit(code) }
+func Executable() (string, error)             { return os.Executable() }
+func UserHomeDir() (string, error)            { return os.UserHomeDir() }
+func UserCacheDir() (string, error)           { return os.UserCacheDir() }
+func UserConfigDir() (string, error)          { return os.UserConfigDir() }
+func IsExist(err error) bool                  { return os.IsExist(err) }
+func IsNotExist(err error) bool               { return os.IsNotExist(err) }
+func IsPermission(err error) bool             { return os.IsPermission(err) }
+func IsTimeout(err error) bool                { return os.IsTimeout(err) }
+func IsPathSeparator(c uint8) bool            { return os.IsPathSeparator(c) }
+func DirFS(dir string) fs.FS                  { return os.DirFS(dir) }
+func SameFile(a, b FileInfo) bool             { return os.SameFile(a, b) }
 func NewSyscallError(s string, e error) error { return os.NewSyscallError(s, e) }
-func Getpagesize() int                { return os.Getpagesize() }
+func Getpagesize() int                        { return os.Getpagesize() }
 
 // ---------------------------------------------------------------- rarely used API, passed through
 // (present so that an edit of the repository that starts using them still builds)
